@@ -40,7 +40,7 @@ REAL = ['py4hw.simulation.Simulator (topologicalSort, propagateAll, clk)', 'py4h
 STUB = ['stimulus (wire.put between clk calls)']
 ASSUMPTIONS = ['reference models in dsim/catalog.py state the documented function of each block',
                'netlists up to ~150 leaves / chains up to 900 deep (thorough); widths up to 70']
-PROBES = ['wires_renamed_before_sort', 'simulator_through_constructor', 'settled_by_clk0', 'gated_top_driver', 'simulator_before_cycle_closed', 'const_update', 'stop_cancel', 'sorter_needed_repair', 'cyclic_refused', 'reg_cycle_accepted', 'late_add', 'antidataflow_block']
+PROBES = ['creation_refused_then_retried', 'wires_renamed_before_sort', 'simulator_through_constructor', 'settled_by_clk0', 'gated_top_driver', 'simulator_before_cycle_closed', 'const_update', 'stop_cancel', 'sorter_needed_repair', 'cyclic_refused', 'reg_cycle_accepted', 'late_add', 'antidataflow_block']
 
 STATEFUL_LEAVES = {'Latch', 'AsynchronousMemory', 'BidirBuf'}
 
@@ -71,6 +71,18 @@ def gen(rs, tier, index):
         nm = 'i%d' % len(d['inputs'])
         d['inputs'].append({'name': nm, 'w': 1, 'role': 'enable'})
         d['top_enable'] = nm
+    if scn['mode'] == 'acyclic' and rng.random() < 0.12:
+        # a user block that refuses one input value with an exception: the first request for the simulator fails while the
+        # netlist is settled for the first time, the caller catches that, corrects the input and asks again
+        w = rng.choice([2, 4, 8])
+        nm = 'i%d' % len(d['inputs'])
+        d['inputs'].append({'name': nm, 'w': w, 'role': 'picky'})
+        nid = max(n['id'] for n in d['nodes']) + 1
+        d['nodes'].append({'id': nid, 'kind': 'PickyInc', 'p': {'bad': (1 << w) - 1}, 'ins': [nm], 'ow': [w], 'grp': []})
+        d['outputs'].append('n%d.0' % nid)
+        d['order'].append(nid)
+        scn['picky'] = [nm, (1 << w) - 1]
+        picky_idx = len(d['inputs']) - 1
     order = list(d['order'])
     r = rng.random()
     if r < 0.5:
@@ -90,6 +102,8 @@ def gen(rs, tier, index):
     prev = None
     for _ in range(sr.randint(2, 8)):
         vec = netlist.gen_vector(sr, d['inputs'], prev)
+        if scn.get('picky') and vec[picky_idx] == scn['picky'][1]:
+            vec[picky_idx] -= 1
         prev = vec
         faults = [f for f in ('resort', 'sim_restart', 'extra_settle') if fr.random() < 0.2]
         n = sr.choice([0, 1, 1, 1, 2, 3, 6])        # clk(0): settle only, no edge
@@ -240,6 +254,17 @@ def run(scn, log, st):
     if not unsorted_ok(b.hw):
         st.probe('sorter_needed_repair')
         st.nontrivial = True
+    if scn.get('picky') and late is None and any(i['name'] == scn['picky'][0] for i in d['inputs']) and any(n['kind'] == 'PickyInc' for n in d['nodes']):
+        pname, bad = scn['picky']
+        pw = b.wire(pname)
+        pw.put(bad)
+        try:
+            with quiet():
+                get_sim()
+        except ValueError:
+            st.fault('creation_refused_then_retried')
+            st.probe('creation_refused_then_retried')
+        pw.put(0)
     try:
         with quiet():
             sim = get_sim()
